@@ -10,8 +10,8 @@ A history is any sequence of `push r` / `extend rs` / `viaSerializer rs` / `buil
 * `batches`: at build k the root holds exactly the rows added since build k-1 (R1: one row per record, all
   columns at that length; with R2: the rows are `interpRow` of those records), and it continues from the fresh
   builder.  By induction over the history, from R1 (`Props/C01.push_appends`) and `take_is_fresh`.
-The arrays of build k are `finishFields` of that root state (by definition of `buildArrays`); that they decode to
-`dec` of the state is `finish_decode` (Lemmas/C03*, C03).
+The statements about the ARRAYS each build returns (`C10_histories`, `C10_chunking_irrelevant`, `C10_build_is_fresh`) are in
+Props/C10Arrays.lean: every build is physically the one-shot `toMarrow` of its batch, hence decodes by `C01_build_decode`.
 -/
 namespace SaModel.Props.C10
 open SaModel SaModel.Build SaModel.Spec
